@@ -690,6 +690,53 @@ fn allocate_bucket(
     }
 }
 
+/// Verification hooks: the probe sequence and the bucket allocator on a caller-supplied meta map.
+#[cfg(nomt_verif)]
+pub mod verif {
+    use super::{MetaMap, PageId, ProbeResult, ProbeSequence};
+
+    pub fn hash_raw_page_id(page_id: [u8; 32], seed: &[u8; 16]) -> u64 {
+        super::hash_raw_page_id(page_id, seed)
+    }
+
+    // one meta byte per bucket; the map itself wants whole pages.
+    fn meta_map(meta: &[u8]) -> MetaMap {
+        let mut bytes = meta.to_vec();
+        bytes.resize(meta.len().next_multiple_of(4096).max(4096), 0);
+        MetaMap::from_bytes(bytes, meta.len())
+    }
+
+    /// The results of `count` successive calls of `ProbeSequence::next`, as (kind, bucket) with
+    /// kind one of 'H' (possible hit), 'E' (empty), 'T' (tombstone), 'X' (exhausted).
+    pub fn probe_results(
+        meta: &[u8],
+        page_id: &PageId,
+        seed: &[u8; 16],
+        count: usize,
+    ) -> Vec<(char, u64)> {
+        let meta_map = meta_map(meta);
+        let mut probe_seq = ProbeSequence::new(page_id, &meta_map, seed);
+        (0..count)
+            .map(|_| match probe_seq.next(&meta_map) {
+                ProbeResult::PossibleHit(b) => ('H', b),
+                ProbeResult::Empty(b) => ('E', b),
+                ProbeResult::Tombstone(b) => ('T', b),
+                ProbeResult::Exhausted => ('X', 0),
+            })
+            .collect()
+    }
+
+    /// `allocate_bucket`; on success the meta byte of the bucket is updated in `meta`.
+    pub fn allocate_bucket(meta: &mut Vec<u8>, page_id: &PageId, seed: &[u8; 16]) -> Option<u64> {
+        let mut meta_map = meta_map(meta);
+        let bucket = super::allocate_bucket(page_id, &mut meta_map, seed)?;
+        let page = meta_map.page_slice(meta_map.page_index(bucket.0 as usize));
+        let base = meta_map.page_index(bucket.0 as usize) * 4096;
+        meta[bucket.0 as usize] = page[bucket.0 as usize - base];
+        Some(bucket.0)
+    }
+}
+
 fn hash_page_id(page_id: &PageId, seed: &[u8; 16]) -> u64 {
     hash_raw_page_id(page_id.encode(), seed)
 }
